@@ -79,29 +79,27 @@ Proof.
     + pose proof (month_count_range c y (Month_discr m)). apply IH; [lia|range].
 Qed.
 
-Lemma locate_in_spec c y n days : (n <= 12)%nat ->
-  let k := 13 - Z.of_nat n in
+Lemma locate_in_spec c y n : forall k days, Z.of_nat n = 13 - k -> 1 <= k ->
   1 <= days <= msum c y 13 - msum c y k ->
   exists m, k <= m <= 12 /\ locate_in c y (zseq k n) days = Some (m, days - (msum c y m - msum c y k))
             /\ msum c y m - msum c y k < days <= msum c y (m + 1) - msum c y k.
 Proof.
-  intros Hn. revert days. induction n as [|n IH]; intros days k H.
-  - exfalso. subst k. cbn in H. lia.
-  - subst k. cbn [zseq locate_in]. set (k := 13 - Z.of_nat (S n)) in *.
+  induction n as [|n IH]; intros k days Hn Hk H.
+  - exfalso. assert (k = 13) by lia. subst k. lia.
+  - cbn [zseq locate_in].
     assert (Kr : 1 <= k <= 12) by lia.
     pose proof (msum_succ c y k Kr) as S.
-    destruct (Z.leb_spec days (month_count c y k)).
-    + exists k. split; [lia|]. split; [f_equal; f_equal; lia|lia].
-    + assert (Hn' : (n <= 12)%nat) by lia. specialize (IH Hn' (days - month_count c y k)). cbv zeta in IH.
-      replace (k + 1) with (13 - Z.of_nat n) in * by lia.
-      destruct (IH ltac:(lia)) as (m & Mr & E & B).
-      exists m. split; [lia|]. split; [rewrite E; f_equal; f_equal; lia|lia].
+    assert (Hn' : Z.of_nat n = 13 - (k + 1)) by lia. clear Hn.
+    destruct (Z.leb_spec days (month_count c y k)) as [Le|Gt].
+    + exists k. split; [lia|]. split; [f_equal; f_equal; lia|]. clear IH Hn'. lia.
+    + destruct (IH (k + 1) (days - month_count c y k) Hn' ltac:(lia) ltac:(clear IH Hn'; lia)) as (m & Mr & E & B).
+      exists m. split; [lia|]. split; [rewrite E; f_equal; f_equal; clear IH Hn' E; lia|clear IH Hn' E; lia].
 Qed.
 Lemma locate_spec c y o : 1 <= o <= year_count c y ->
   exists m, 1 <= m <= 12 /\ locate c y o = Some (m, o - msum c y m) /\ msum c y m < o <= msum c y (m + 1).
 Proof.
-  intros H. pose proof (locate_in_spec c y 12 o ltac:(lia)) as L. cbv zeta in L.
-  change (13 - Z.of_nat 12) with 1 in L. rewrite msum_total, msum_1 in L.
+  intros H. pose proof (locate_in_spec c y 12 1 o eq_refl ltac:(lia)) as L.
+  rewrite msum_total, msum_1 in L.
   destruct (L ltac:(lia)) as (m & Mr & E & B). exists m. split; [lia|]. unfold locate. rewrite E. split; [f_equal; f_equal; lia|lia].
 Qed.
 
